@@ -180,22 +180,36 @@ def run(ctx):
                     st = blk.stmts[si]
                     if st.k == "assign" and st.rv.k == "binop" and st.rv.j["op"] == "AddWithOverflow":
                         a0 = tbk.operand(st.rv.ops[0], bi, si)
-                        pay = a0[2][0] if (a0[0] == "call" and a0[1].endswith("::unwrap")) else (a0[1][1] if a0[0] == "field" and a0[1][0] == "variant" else None)
-                        if pay is not None and pay[0] == "loopvar" and f.local_ty(pay[1]).startswith("std::option::Option<usize") and tbk.operand(st.rv.ops[1], bi, si) == const(1):
+                        def payload_of(x):
+                            if x[0] == "call" and x[1].endswith("::unwrap"):
+                                return x[2][0]
+                            if x[0] == "field" and x[1][0] == "variant":
+                                return x[1][1]
+                            return None
+                        pays = [payload_of(x) for x in (a0[1] if a0[0] == "phi" else (a0,))]
+                        if pays and all(pp is not None and pp[0] == "loopvar" and isinstance(pp[1], int) and f.local_ty(pp[1]).startswith("std::option::Option<usize") for pp in pays) \
+                                and tbk.operand(st.rv.ops[1], bi, si) == const(1):
                             why = "cursor payload + 1 (valid row index)"
                         break
             if why is not None:
                 n_local += 1
                 continue
-            # closures are counted with the function they are written in (their numbering changes when one is added or removed)
-            found.setdefault((k.split("::{closure")[0], kind), []).append(span)
+            # counted per kind over everything count() can reach: helpers get inlined, extracted and renamed (threshold() may live
+            # inside count()), closures renumbered
+            found.setdefault(("count() and callees", kind), []).append(span)
+    budget = {}
+    for (fk_, kind_), (n_, why_) in allow.items():
+        b0 = budget.setdefault(kind_, [0, []])
+        b0[0] += n_
+        b0[1].append(why_)
     for key, spans in sorted(found.items()):
-        if key in allow and len(spans) <= allow[key][0]:
-            ctx.ok("R03-panic-census", "%s:%s" % key, "%d site(s): %s" % (len(spans), allow[key][1]))
+        kind_ = key[1]
+        if kind_ in budget and len(spans) <= budget[kind_][0]:
+            ctx.ok("R03-panic-census", "%s:%s" % key, "%d site(s) not refuted by a local test, each covered by: %s" % (len(spans), "; ".join(budget[kind_][1])[:300]))
         else:
-            ctx.fail("R03-panic-census", "%s:%s" % key, spans[-1], "count() can reach %d may-panic site(s) of kind %s in %s; the allow-list discharges %s — an undischarged panic on register contents"
-                     % (len(spans), key[1], key[0].split("::", 2)[-1], allow.get(key, (0, ""))[0]))
-    ctx.floor("R03-panic-census", len(found), 8, "kinds of may-panic sites reachable from count")
+            ctx.fail("R03-panic-census", "%s:%s" % key, spans[-1], "count() can reach %d may-panic site(s) of kind %s that no dominating test refutes; the table of argued sites covers %s — an undischarged panic on register contents"
+                     % (len(spans), kind_, budget.get(kind_, (0,))[0]))
+    ctx.floor("R03-panic-census", len(found), 4, "kinds of may-panic sites reachable from count")
     neighbour_bounds(ctx)
     # the table index terms are b - OFFSET
     for fk, tname in ((HLL + "::threshold", "THRESHOLD_DATA_VEC"), (HLL + "::estimate_bias", "RAW_ESTIMATE_DATA_VEC"), (HLL + "::estimate_bias", "BIAS_DATA_VEC")):
